@@ -55,7 +55,7 @@ def gen_cases(tier, seed):
     fams = ["exact-chain", "lut-stress", "cpu-mix", "approx-tail", "buffer-stress", "alias-stress", "stripe-stress", "exact-dag"]
     n_hist = 64 if q else 800
     for i in range(n_hist):
-        kind = ["AA", "AB", "twins", "entry-mix", "acc-mix", "long", "twins-entry-mix", "entry-mix", "greedy-ties", "limits"][i % 10]
+        kind = ["AA", "AB", "twins", "entry-mix", "acc-mix", "long", "twins-entry-mix", "entry-mix", "greedy-ties", "limits", "bytes-repeat"][i % 11]
         cases.append({"part": "history", "kind": kind, "seed": int(seed * 7919 + i), "fam": fams[i % len(fams)], "fam2": fams[(i * 3 + 1) % len(fams)]})
     n_hs = 16 if q else 64
     for i in range(n_hs):
@@ -171,6 +171,11 @@ def run_case(case):
             counters["twins"] += 1
         else:
             A, B = netgen.make(case["fam"], case["seed"]), netgen.make(case["fam2"], case["seed"] + 1)
+        if kind == "bytes-repeat" or (kind == "entry-mix" and rng.integers(0, 2) == 0):
+            # weights the compiler generates itself (the all-ones filter of a lowered MEAN) are keyed by value in the process-wide cache of encoded weights:
+            # the same network again, through another entry point, must not find a stale entry
+            A = netgen.make("approx-tail", int(case["seed"]) * len(netgen.APPROX_TAILS) + netgen.APPROX_TAILS.index("mean"))
+            counters["generated_weight_histories"] = counters.get("generated_weight_histories", 0) + 1
         if kind in ("entry-mix", "twins-entry-mix", "AB") and rng.integers(0, 2):
             # models whose subgraph carries no name (an optional field): whatever stands in for it must not depend on the entry point or the file name
             A.sg_name = None
@@ -193,6 +198,11 @@ def run_case(case):
             seq = [("main", ma, cfgA), ("main", mb, cfgB)]
             if kind == "twins" and rng.integers(0, 2):
                 seq.append(("main", ma, cfgA))
+        elif kind == "bytes-repeat":
+            # the buffer entry point again and again, with nothing in between that goes through the file reader
+            counters["entry_point_mixes"] += 1
+            seq = [(str(rng.choice(["convert_bytes", "main", "convert"])), ma, CONVERT_CFG), ("convert_bytes", ma, CONVERT_CFG), ("convert_bytes_same_buffer", ma, CONVERT_CFG), ("convert_bytes", mb, CONVERT_CFG),
+                   ("convert_bytes_memoryview", ma, CONVERT_CFG)]
         elif kind in ("entry-mix", "twins-entry-mix"):
             counters["entry_point_mixes"] += 1
             order = [("convert", ma, CONVERT_CFG), ("main", mb, CONVERT_CFG), ("convert_bytes", ma, CONVERT_CFG), ("main", ma, CONVERT_CFG), ("convert_bytes", mb, CONVERT_CFG),
